@@ -87,6 +87,36 @@ def cases():
     return out
 
 
+TEXTS = ("[1]U[2]O[1]U[3]", "[1]O[2]U[2]O[3]", "([1]U[1])X[2]U[3]", "[2]U[1]O[2]X[3]U[1]", "[1][901]U[2]O[1]U[3][901]", "[3]O[3]O[1]U[2]", "[2] ∧ [2] ∨ [1] ⊻ [3] ∧ [1]", "[3]U[2]U[1]O[3]U[2]")
+TEXT = 0
+
+
+def glue_text(a0: int, a1: int, a2: int, y: int) -> bool:
+    """
+    pre: 0 <= a0 < 3 and 0 <= a1 < 3 and 0 <= a2 < 3 and 0 <= y <= 1
+    post: _
+    """
+    # longer expressions in which requirement keys REPEAT (the evaluator is asked once per distinct key or once per occurrence,
+    # the builder zips keys and outcomes): every assignment of the three keys
+    sel = [xs.pick(a0, 0, 3), xs.pick(a1, 0, 3), xs.pick(a2, 0, 3)]
+    y = xs.pick(y, 0, 2)
+    text = TEXTS[TEXT]
+    alpha = {str(i + 1): env.STATES[sel[i]] for i in range(3)}
+    env.setup(rc=alpha, fc={"901": True}, hints={}, yc={"2": y})
+    with xs.nt():
+        tree = env.real_parser("condition").parse(text)
+    exp = refsem.outcome(refsem.req(tree, alpha).value)
+    try:
+        res = detloop.run(requirement_constraint_evaluation(text))
+        got = (res.requirement_constraints_fulfilled, res.requirement_is_conditional)
+    except Exception as e:  # pylint:disable=broad-except
+        got = ("raised", f"{type(e).__name__}: {e}")
+    xs.reached()
+    if got != exp:
+        return xs.fail(f"'{text}' under { {k: v.name for k, v in alpha.items()} }: (fulfilled, is_conditional) = {got}, compositional semantics gives {exp}", a0=a0, a1=a1, a2=a2, y=y)
+    return True
+
+
 def glue_val(idx: int) -> bool:
     """
     pre: LO <= idx < HI
